@@ -208,6 +208,8 @@ def run_case(case):
         for i, im in enumerate(imgs):
             ld.add_tomogram(_as_array(im, case["array"], i), mk(i), image_id=i)
     before_pos = ld.molecules.pos.copy()
+    if case.get("used", (case["b"] + len(sites)) % 2 == 0):
+        ld.asnumpy()  # a loader that has already loaded sub-volumes (half of the cases): binning must start from the image, not from leftovers
     try:
         lb = ld.binning(b, compute=compute)
     except Exception as e:  # noqa
